@@ -112,3 +112,99 @@ Lemma fc_step i x : fc P i x - fc P i (x + 1) = gc P i (Sx P i + x) - gc P i (Sx
 Proof. unfold fc, gc. replace (Sx P (i + 1) + (x + 1)) with (Sx P (i + 1) + x + 1) by lia.
   replace (Sx P i + (x + 1)) with (Sx P i + x + 1) by lia. lia. Qed.
 End Costs.
+
+(* ---------------------------------------------------------------- running minimum *)
+Lemma minupto_le f : forall n k, (k <= n)%nat -> minupto f n <= f (Z.of_nat k).
+Proof.
+  induction n as [|n IH]; intros k Hk; cbn [minupto].
+  - replace k with O by lia. cbn. lia.
+  - destruct (Nat.eq_dec k (S n)) as [->|Hne]; [lia|]. specialize (IH k ltac:(lia)). lia.
+Qed.
+
+Lemma minupto_attained f : forall n, exists k, (k <= n)%nat /\ minupto f n = f (Z.of_nat k).
+Proof.
+  induction n as [|n (k & Hk & E)]; cbn [minupto].
+  - exists O. split; [lia|reflexivity].
+  - destruct (Z.le_gt_cases (minupto f n) (f (Z.of_nat (S n)))).
+    + exists k. split; [lia|]. rewrite Z.min_l by lia. exact E.
+    + exists (S n). split; [lia|]. rewrite Z.min_r by lia. reflexivity.
+Qed.
+
+Lemma chain_up f L T : (forall x, L <= x -> x + 1 <= T -> f x <= f (x + 1)) ->
+  forall k, L + Z.of_nat k <= T -> f L <= f (L + Z.of_nat k).
+Proof.
+  intros H. induction k as [|k IH]; intros Hk; [replace (L + Z.of_nat 0) with L by lia; lia|].
+  specialize (IH ltac:(lia)). specialize (H (L + Z.of_nat k) ltac:(lia) ltac:(lia)).
+  replace (L + Z.of_nat (S k)) with (L + Z.of_nat k + 1) by lia. lia.
+Qed.
+
+Lemma minupto_valley f L T : 0 <= L ->
+  (forall x, 0 <= x < L -> f (x + 1) <= f x) ->
+  (forall x, L <= x -> x + 1 <= T -> f x <= f (x + 1)) ->
+  forall n, Z.of_nat n <= T -> minupto f n = f (Z.min (Z.of_nat n) L).
+Proof.
+  intros HL Hdn Hup. induction n as [|n IH]; intros Hn; cbn [minupto].
+  - replace (Z.min (Z.of_nat 0) L) with 0 by lia. reflexivity.
+  - rewrite IH by lia. destruct (Z.le_gt_cases (Z.of_nat (S n)) L) as [Hc|Hc].
+    + replace (Z.min (Z.of_nat n) L) with (Z.of_nat n) by lia.
+      replace (Z.min (Z.of_nat (S n)) L) with (Z.of_nat (S n)) by lia.
+      specialize (Hdn (Z.of_nat n) ltac:(lia)). replace (Z.of_nat n + 1) with (Z.of_nat (S n)) in Hdn by lia. lia.
+    + replace (Z.min (Z.of_nat n) L) with L by lia. replace (Z.min (Z.of_nat (S n)) L) with L by lia.
+      pose proof (chain_up f L T Hup (Z.to_nat (Z.of_nat (S n) - L)) ltac:(lia)) as Cu.
+      replace (L + Z.of_nat (Z.to_nat (Z.of_nat (S n) - L))) with (Z.of_nat (S n)) in Cu by lia. lia.
+Qed.
+
+(* ---------------------------------------------------------------- more on folds and sums *)
+Lemma fold_ins_sl_gen (pos d : nat -> Z) x : forall js evs,
+  sl (fold_left (fun evs j => if 0 <? pos j then ev_insert (pos j, d j) evs else evs) js evs) x
+  = sl evs x + zsum (fun j => if (0 <? pos j) && (x <? pos j) then d j else 0) js.
+Proof.
+  induction js as [|j r IH]; intros evs; cbn [fold_left zsum]; [lia|].
+  rewrite IH. destruct (Z.ltb_spec 0 (pos j)); cbn [andb].
+  - rewrite sl_insert. cbn [fst snd]. lia.
+  - lia.
+Qed.
+
+Lemma zsum_seq_ind (h : nat -> Z) b0 : forall N e, (e <= N)%nat ->
+  zsum h (seq b0 (e - b0)) = zsum (fun j => if Nat.leb b0 j && Nat.ltb j e then h j else 0) (seq 0 N).
+Proof.
+  induction N as [|N IH]; intros e He.
+  - replace (e - b0)%nat with O by lia. reflexivity.
+  - rewrite zsum_seq_S. cbn [Nat.add].
+    destruct (Nat.eq_dec e (S N)) as [->|Hne].
+    + destruct (Nat.le_gt_cases b0 N) as [Hb|Hb].
+      * replace (S N - b0)%nat with (S (N - b0)) by lia. rewrite zsum_seq_S.
+        replace (b0 + (N - b0))%nat with N by lia.
+        rewrite (IH N (le_n _)).
+        destruct (Nat.leb_spec b0 N); [|lia]. destruct (Nat.ltb_spec N (S N)); [|lia]. cbn [andb].
+        f_equal. apply zsum_ext. intros j Hj. apply in_seq in Hj.
+        destruct (Nat.ltb_spec j N); destruct (Nat.ltb_spec j (S N)); try lia; reflexivity.
+      * replace (S N - b0)%nat with O by lia. cbn [seq zsum].
+        destruct (Nat.leb_spec b0 N); [lia|]. cbn [andb].
+        rewrite zsum_all_zero; [lia|]. intros j Hj. apply in_seq in Hj. destruct (Nat.leb_spec b0 j); [lia|reflexivity].
+    + rewrite (IH e ltac:(lia)). destruct (Nat.ltb_spec N e); [lia|]. rewrite andb_false_r. lia.
+Qed.
+
+(* telescoping sum from a threshold *)
+Lemma zsum_tele (A : nat -> Z) lb : forall N, (lb <= N)%nat ->
+  zsum (fun j => if Nat.leb lb j then A (j + 1)%nat - A j else 0) (seq 0 N) = A N - A lb.
+Proof.
+  induction N as [|N IH]; intros H.
+  - replace lb with O by lia. cbn. lia.
+  - rewrite zsum_seq_S. cbn [Nat.add]. destruct (Nat.eq_dec lb (S N)) as [->|Hne].
+    + destruct (Nat.leb_spec (S N) N); [lia|].
+      rewrite zsum_all_zero; [lia|]. intros j Hj. apply in_seq in Hj. destruct (Nat.leb_spec (S N) j); [lia|reflexivity].
+    + rewrite IH by lia. destruct (Nat.leb_spec lb N); [|lia]. replace (N + 1)%nat with (S N) by lia. lia.
+Qed.
+
+Lemma first_idx_before f : forall l k, (k < first_idx f l)%nat -> f (zn l k) = false.
+Proof.
+  induction l as [|y r IH]; intros k Hk; cbn [first_idx] in Hk; [lia|].
+  destruct (f y) eqn:E; [lia|]. destruct k as [|k]; [exact E|]. unfold zn. cbn [nth]. apply (IH k). lia.
+Qed.
+
+Lemma first_idx_at f : forall l, (first_idx f l < length l)%nat -> f (zn l (first_idx f l)) = true.
+Proof.
+  induction l as [|y r IH]; intros H; cbn [first_idx length] in *; [lia|].
+  destruct (f y) eqn:E; [exact E|]. unfold zn. cbn [nth]. apply IH. lia.
+Qed.
